@@ -3,7 +3,8 @@ import itertools, os, re
 import vlib
 from vlib import Check, Stream, hexs
 from checks.murmur import murmur3_32
-from checks.c05 import py_atoll, unhex, kop, INT64_MIN, INT64_MAX, FULL_COLLISIONS, VS_LENGTHS, VS_SWEEP, vs_value
+from checks.c05 import (py_atoll, unhex, kop, INT64_MIN, INT64_MAX, FULL_COLLISIONS, VS_LENGTHS, VS_SWEEP, vs_value,
+                        PREFIX_COLLISIONS, py_debug_line, alias_value)
 
 WS = b" \t\r\n"
 ENTRY = re.compile(r"^([0-9a-f]+|-)\(([0-9a-f]{8})\)=([0-9a-f]+|-)$")
@@ -105,7 +106,7 @@ class Oracle:
         kind = w[0]
         if not r or r[0] == "bad-op":
             return "harness rejected the operation"
-        if r[0] == "skip":
+        if r[0] == "skip" and kind not in ("putalias", "putkeyalias"):
             return None
         if r[0] == "fault":
             return "undefined behaviour predicted: " + res
@@ -175,6 +176,33 @@ class Oracle:
             if self.c:
                 # entries whose names are equal ignoring case may not be reordered; that IS the stable sort
                 pass
+        elif kind in ("putalias", "putkeyalias"):
+            # data / name argument pointing into the storage of the first match in lookup direction: the
+            # OLD bytes are stored; a UNIQUE table drops that very entry during the call
+            k = unhex(w[1])
+            m0 = [e for e in self.look() if self.eq(e[0], k)]
+            if kind == "putalias":
+                nk, val = k, alias_value(m0[0][1] if m0 else None, int(w[3]), int(w[4]), int(w[5]))
+            else:
+                off = int(w[3])
+                nk, val = (m0[0][0][off:], unhex(w[4])) if m0 and off <= len(m0[0][0]) else (None, None)
+            if val is None:
+                if res != "skip":
+                    bad = "harness made a call it should have skipped: %s" % res
+            elif len(val) == 0:
+                if res != "false EINVAL":
+                    bad = "put of an empty value reported %s" % res
+            else:
+                if res != "true":
+                    bad = "put with an argument pointing into the table's own storage reported %s" % res
+                self.put(nk, val)
+        elif kind == "debug":
+            want = b"".join(py_debug_line(k, v) for k, v in self.l)
+            if len(r) != 3 or r[:2] != ["debug", "1"] or unhex(r[2]) != want:
+                bad = "debug() wrote %r; the entries render as %r" % ((unhex(r[2]) if len(r) == 3 else res)[:120], want[:120])
+        elif kind == "hugeval":
+            if res != "ok":
+                bad = "value of 2^32 + %s bytes: %s" % (w[1], res)
         elif kind == "inv":
             # invalid arguments on the current table. Group 1 (before `/`): documented / coded EINVAL.
             # Group 2: remove(NULL) = 0, removeobj(NULL) = false, getnext(NULL obj) = false (errno is
@@ -192,8 +220,8 @@ class Oracle:
                 bad = ("remove(NULL) / removeobj(NULL) / getnext(NULL obj) / debug(NULL) / save or load on an unusable path did "
                        "not fail as documented: %s" % " ".join(g2))
         elif kind == "lock":
-            if res != "locked size %d" % len(self.l):
-                bad = "size inside lock/unlock reported %s; the multimap holds %d entries" % (res, len(self.l))
+            if r[:4] != ["locked", "size", "%d" % len(self.l), "nested=ENOENT"] or r[4:] not in (["nolock"], ["held=1", "after=0"]):
+                bad = "lock(); nested get of an absent key; size; [other thread: mutex busy]; unlock(); [other thread: mutex free] gave `%s` (%d entries)" % (res, len(self.l))
         elif kind in ("walk", "walkn", "walkrm", "walkrmc"):
             key = None
             if kind == "walkn":
@@ -519,7 +547,8 @@ class TheCheck(Check):
         #     hand-written files: CRLF, no final newline, empty lines, no separator, duplicates (UNIQUE tables)
         ops = []
         awkward = [b"", b"a=b", b"=", b"x:y", b"t\tab", b"two  words", b"line1\nline2", b"cr\rlf", b"100%", b"%41", b"%4", b"%zz", b"a+b",
-                   b"\x80\xff\xfe", b"  lead", b"trail  ", b" both ", b"\t", b" ", b"#hash", b"x" * 1500, b"caf\xc3\xa9"]
+                   b"\x80\xff\xfe", b"  lead", b"trail  ", b" both ", b"\t", b" ", b"#hash", b"x" * 1500, b"caf\xc3\xa9",
+                   b"\\", b"v\\", b"\\=x", b"a\\\\b", b"\\n", b"end\\ "]
         for sep in ("3d", "20", "3a", "09", "7c", "2c"):
             for o in ("0 0 0 0", "1 0 0 0", "0 1 1 1", "1 1 0 1"):
                 ops.append("new " + o)
@@ -531,9 +560,17 @@ class TheCheck(Check):
                 for i, v in enumerate([b"", b"a=b", b"x:y", b"in  side", b"100%", b"%41", b"a+b", b"\x80\xff", b"#hash", b"y" * 1100]):
                     ops.append(kop("putstr", b"p%d" % i, hexs(v)))
                 ops += ["rt %s %s 0" % (sep, o), "walk 0", "rt %s 0 0 0 0 0" % sep, "rt %s %s 1" % (sep, o), "size"]
+                # names and values ending in / containing backslashes (no escaping rule exists: a separator
+                # right after a backslash is the separator)
+                ops.append("new " + o)
+                for nm, v in [(b"k\\", b"after backslash key"), (b"\\", b"bs"), (b"a\\b", b"mid"), (b"dir\\sub\\", b"v\\"), (b"e\\\\", b"\\\\"),
+                              (b"q", b"\\"), (b"r", b"x\\"), (b"s\\", b"")]:
+                    ops.append(kop("putstr", nm, hexs(v)))
+                ops += ["save %s 1" % sep, "save %s 0" % sep, "rt %s %s 1" % (sep, o), "walk 0", "rt %s %s 0" % (sep, o), "walk 0", "size"]
         files = [b"a=1\r\nb=2\r\n", b"a=1\nb=2", b"\n\n a = 1 \n\n\nb=2\n\n", b"nosep\nalso no sep \n", b"a=1\na=2\nA=3\na=4\n",
                  b"a=1\r\n\r\n#c\r\nb=%32\r\nlast=x", b"k=v=w\n=onlyvalue\nk2=\n", b"  # indented comment\nreal=1\n", b"\r\n", b"x",
-                 b"a 1\nb\t2\nc:3\nd=4\n", b"sp ace=v\n", b"a=%zz\nb=%4\n", b"u=%C3%A9+x\n"]
+                 b"a 1\nb\t2\nc:3\nd=4\n", b"sp ace=v\n", b"a=%zz\nb=%4\n", b"u=%C3%A9+x\n",
+                 b"k\\=v\nq\\ w\nr\\:x\n", b"a\\\\=b\\\nlast=\\", b"\\\n\\=\n=\\\n"]
         for o in ALL_OPTS:
             for f in files:
                 for sep in ("3d", "20", "3a", "09"):
@@ -564,6 +601,50 @@ class TheCheck(Check):
         sts.append(Stream("invalid-args-locks-getmulti", ops, history=True,
                           note="inv = invalid-argument calls; getmulti with 0 1 2 9 10 11 19 20 21 matches x newmem x freemulti"))
 
+        # 5d. case-insensitive means ASCII LETTERS only (C locale strcasecmp): bytes that differ by 0x20 and are
+        #     not letters ('[' '{', '\\' '|', ']' '}', '^' '~', '@' '`', '_' DEL, digits / controls, bytes >= 0x80
+        #     such as Latin-1 capital / small letters) are DIFFERENT keys under every option vector
+        ops = []
+        pairs = [(b"[", b"{"), (b"\\", b"|"), (b"]", b"}"), (b"^", b"~"), (b"@", b"`"), (b"_", b"\x7f"), (b"0", b"\x10"), (b"!", b"\x01"),
+                 (b"?", b"\x1f"), (b"k[1]", b"k{1}"), (b"a@b", b"a`b"), (b"\xc0", b"\xe0"), (b"\xc9t\xe9", b"\xe9t\xc9"), (b"\x80", b"\xa0"),
+                 (b"\xd0", b"\xf0"), (b"\xdf", b"\xff"), (b"Z[", b"z{"), (b"M", b"m"), (b"Az", b"aZ")]
+        for o in ALL_OPTS:
+            for x_, y_ in pairs:
+                ops += ["new " + o, kop("put", x_, "31"), kop("put", y_, "32"), kop("get", x_, "0"), kop("get", y_, "1"),
+                        kop("getmulti", x_, "1"), kop("getmulti", y_, "0"), "sort", "walk 0", kop("put", x_, "33"), kop("getmulti", y_, "2"),
+                        kop("rm", x_), kop("get", y_, "0"), "size", kop("rm", y_), "size"]
+        sts.append(Stream("caseless-nonletters", ops, history=True,
+                          note="byte pairs differing by 0x20 that are not ASCII letters, bytes >= 0x80; all 16 option vectors"))
+
+        # 5e. arguments pointing into the table's own storage; debug() rendering
+        ops = []
+        vals = [b"a", b"\0", b"ab\0", b"hello\0", b"a\0b\0", bytes(range(1, 7))]
+        for o in ALL_OPTS:
+            full = o in ("0 0 0 0", "1 0 0 0", "1 1 1 1")
+            for v in vals:
+                for off in range(len(v) + 2):
+                    for mode, ln in [(m_, l_) for m_ in (0, 2) for l_ in range(len(v) - off + 2)] + [(1, 0), (3, 0)]:
+                        if not full and (mode, ln) not in ((0, 1), (2, len(v) - off), (1, 0), (3, 0)):
+                            continue
+                        ops += ["new " + o, kop("put", b"x", "70"), kop("put", b"k", hexs(v)), kop("put", b"y", "71"), kop("put", b"K", hexs(v[::-1])),
+                                kop("putalias", b"k", str(mode), str(off), str(ln)), kop("getmulti", b"k", "0"), kop("getmulti", b"K", "0"), "walk 0"]
+            for name in (b"abcd", b"Ab", b"x"):
+                for off in range(len(name) + 2):
+                    for pre in ([], [kop("put", name[off:], "6f6c64")] if off <= len(name) else []):
+                        ops += ["new " + o, kop("put", name, "31")] + pre + [kop("putkeyalias", name.lower(), str(off), "6e6577"),
+                                kop("getmulti", name, "0"), kop("getmulti", name[off:], "0"), "walk 0", "size"]
+            ops += ["new " + o]
+            for i, v in enumerate([b"\0", b"x", b"\xff", b"str\0", b"a\0b", b"x" * 59, b"x" * 60, b"x" * 61, b"y" * 59 + b"\0", b"y" * 60 + b"\0",
+                                   bytes(range(256)), b"\n\t\x7f\x80 ~"]):
+                ops += [kop("put", b"d%d" % i, hexs(v)), "debug"]
+            ops += [kop("put", b"", hexs(b"empty name\0")), kop("put", b"n\nl", "31"), "debug", "sort", "debug", "clear", "debug"]
+        ops += ["end"]
+        sts.append(Stream("alias-args-debug", ops, history=True,
+                          note="put/putstr of stored+off (get and getnext pointers; UNIQUE removes the aliased entry), names inside stored names, debug()"))
+        if self.tier != "quick":
+            sts.append(Stream("huge-value", ["hugeval 16"], history=False, nomodel=True,
+                              note="one value of 2^32+16 bytes: every reported size (get, getmulti, getnext) and spot-checked bytes, replace, ledger"))
+
         # 6. ints and strings
         ops = []
         for o in ("0 0 0 0", "1 1 1 1"):
@@ -580,7 +661,7 @@ class TheCheck(Check):
         # 7. random histories
         nh, nops = (64, 150) if self.tier == "quick" else (480, 800)
         ops = []
-        pool0 = K + [b"B", b"ab", b"Ab", b"", b"k1", b"K1", b"x y", b"\xe9", b"\xc9"] + list(FULL_COLLISIONS[2]) + list(FULL_COLLISIONS[3])
+        pool0 = K + [b"B", b"ab", b"Ab", b"", b"k1", b"K1", b"x y", b"\xe9", b"\xc9", b"[", b"{", b"@", b"`", b"k\\"] + list(FULL_COLLISIONS[2]) + list(FULL_COLLISIONS[3])
         for hno in range(nh):
             o = ALL_OPTS[hno % 16]
             pool = pool0 + [bytes(rng.randrange(1, 256) for _ in range(rng.randrange(1, 20)))]
@@ -590,7 +671,11 @@ class TheCheck(Check):
                 x = rng.random()
                 if x < 0.02:
                     ops.append("inv")
-                elif x < 0.03:
+                elif x < 0.05:
+                    ops.append(rng.choice([kop("putalias", k, rng.choice("0123"), str(rng.randrange(6)), str(rng.randrange(6))),
+                                           kop("putalias", k, rng.choice("02"), "0", str(rng.randrange(1, 3))),
+                                           kop("putkeyalias", k, str(rng.randrange(3)), hexs(b"ka%d" % rng.randrange(9))), "debug"]))
+                elif x < 0.06:
                     ops.append(rng.choice(["lock", "walkrmc %d" % rng.getrandbits(8), "rt 3d %s 0" % rng.choice(ALL_OPTS)]))
                 elif x < 0.25:
                     v = bytes(rng.choice([0, rng.randrange(256), rng.randrange(0x30, 0x3a)]) for _ in range(rng.choice([0, 1, 2, 5, 17])))
